@@ -80,14 +80,34 @@ def check(ctx, src):
     ctx.decide_tt("MX-LOOP", f"{MC}|macroexpand|rebinding", rebind is not None and isinstance(final, ast.Return) and isinstance(final.value, ast.Name) and final.value.id == tv,
                f"each expansion must be stored back into `{tv}`, which is what the loop tests, what a core macro leaves unchanged, and what is returned (the function ends with `{norm(final)}`)", MC, loop.lineno,
                witness="(hy.macroexpand '(m0 5)) where m0 expands into a core form returns the original '(m0 5)", detail="tree = replace_hy_obj(obj, tree) … return tree")
-    head = pyq.contains(loop, lambda n: isinstance(n, ast.Subscript) and isinstance(n.value, ast.Name) and n.value.id == tv and norm(n.slice) == "0")
+    def _takes_head(n):
+        if isinstance(n, ast.Subscript) and isinstance(n.value, ast.Name) and n.value.id == tv and norm(n.slice) == "0":
+            return True
+        if isinstance(n, ast.Call) and isinstance(n.func, ast.Name) and mc.func(n.func.id) is not None and any(isinstance(a, ast.Name) and a.id == tv for a in n.args):
+            h_ = mc.func(n.func.id)
+            k = [isinstance(a, ast.Name) and a.id == tv for a in n.args].index(True)
+            pn = h_.args.args[k].arg if k < len(h_.args.args) else None
+            return any(isinstance(x, ast.Subscript) and isinstance(x.value, ast.Name) and x.value.id == pn and norm(x.slice) == "0" for x in ast.walk(h_))
+        return False
+
+    head = pyq.contains(loop, _takes_head)
     calls_m = pyq.contains(loop, lambda n: isinstance(n, ast.Call) and isinstance(n.func, ast.Name) and pm.find(n, f"map(as_model, {tv}[1:])") is not None)
     args_from_tree = calls_m is not None
     ctx.check(head is not None and args_from_tree, "MX-LOOP", f"{MC}|macroexpand|current tree", "head and arguments must be taken from the current tree", MC, loop.lineno, detail="fn = tree[0]; m(*map(as_model, tree[1:]))")
     on = [n for n in loop.body if isinstance(n, ast.If) and norm(n.test) == "once"]
     ctx.check(len(on) == 1 and isinstance(on[0].body[0], ast.Break) and loop.body[-1] is on[0], "MX-LOOP", f"{MC}|macroexpand|once", "`once` must break at the end of the first iteration", MC, loop.lineno, detail="if once: break")
-    nm = pyq.contains(loop, lambda n: isinstance(n, ast.If) and norm(n.test) == "not m" and isinstance(n.body[0], ast.Break))
-    ctx.check(nm is not None, "MX-LOOP", f"{MC}|macroexpand|no macro", "a head that names no macro must end the loop", MC, loop.lineno, detail="if not m: break")
+    mv = calls_m.func.id if calls_m is not None else None
+
+    def _tests_no_macro(t):
+        for x in ast.walk(t):
+            if isinstance(x, ast.UnaryOp) and isinstance(x.op, ast.Not):
+                o = x.operand
+                if (isinstance(o, ast.Name) and o.id == mv) or (isinstance(o, ast.NamedExpr) and o.target.id == mv):
+                    return True
+        return False
+
+    nm = any(isinstance(b, ast.Break) and any(pol and _tests_no_macro(t_) for t_, pol in pyq.guards(b, loop)) for b in ast.walk(loop)) if mv else None
+    ctx.check(bool(nm), "MX-LOOP", f"{MC}|macroexpand|no macro", "a head that names no macro must end the loop", MC, loop.lineno, detail="if not m: break")
     hd = next((n for n in loop.body if isinstance(n, ast.If) and "fn[0] == Symbol('.')" in flat(n.test)), None)
     ctx.need(hd is not None, "head classification not found")
     t = flat(hd.test)
